@@ -261,11 +261,14 @@ let rec hc_loop nd orig octets script =
             | Continue o' -> hc_loop nd orig o' r)
        | Err e -> Err e | Crash c -> Crash c | Hang -> Hang)
 
-(* ---- NFC-DEP exchange against an arbitrary answer stream (Model/DepAny.v): answers  hex | - (empty frame) | N (silence) | T (corrupted), '.' = none ---- *)
+(* ---- NFC-DEP exchange against an arbitrary answer stream (Model/DepAny.v): answers  hex | - (empty frame) | N (silence) | T<d> (corrupted frame after d time units; T = T1), '.' = none; sent = frame@granted time-out ---- *)
 let parse_answers s =
   if s = "." then [] else
-  List.map (fun a -> if a = "N" then ATimeout else if a = "T" then ACorrupt else AFrame (bytes_of_hex a)) (String.split_on_char ',' s)
-let show_sent l = if l = [] then "." else String.concat "," (List.map (function None -> "N" | Some f -> hex_of_bytes f) l)
+  List.map (fun a -> if a = "N" then ATimeout else if a = "T" then ACorrupt (z_of_int 1)
+                     else if String.length a > 1 && a.[0] = 'T' then ACorrupt (zi (String.sub a 1 (String.length a - 1)))
+                     else AFrame (bytes_of_hex a)) (String.split_on_char ',' s)
+let show_sent l = if l = [] then "." else
+  String.concat "," (List.map (fun (fr, t) -> (match fr with None -> "N" | Some f -> hex_of_bytes f) ^ "@" ^ zs t) l)
 let rec nat_of_int n = if n <= 0 then O else S (nat_of_int (n - 1))
 let mkcfg_ orig b106 did nad miu rwt tick =
   { c106 = (b106 = "1"); cdid = parse_oz did; cnad = parse_oz nad; cmiu = zi miu; crwt = zi rwt; ctick = zi tick; corig = (orig = "1") }
